@@ -28,6 +28,7 @@ func init() {
 			{ID: "R05.2", Template: "T-WIDTH", Text: "amd64 vector-shift lowerings mask the count with lane-bits − 1", Min: 3},
 			{ID: "R05.3", Template: "T-SIBLING", Text: "integer division and trapping truncation raise the same set of trap kinds in the interpreter, amd64 and arm64", Min: 5},
 			{ID: "R05.5", Template: "T-WIDTH", Text: "SSA passes apply a width-derived shift-count modulus to scalar shifts only", Min: 1},
+			{ID: "R05.10", Template: "T-SIBLING", Text: "amd64: every memoised constant has its own slot (slot and data paired one to one)", Min: 1},
 			{ID: "R05.9", Template: "T-SIBLING", Text: "amd64 encoder: every site that forces a REX prefix for a byte register uses the same register range", Min: 1},
 			{ID: "R05.8", Template: "T-WIDTH", Text: "amd64 vector shifts: a count placed in the immediate of a packed shift is a literal or masked", Min: 1},
 			{ID: "R05.6", Template: "T-SIBLING", Text: "condition-code mappings of the backends (negation, operand swap) are involutions", Min: 1},
@@ -36,6 +37,7 @@ func init() {
 		},
 		Run: runC05,
 		Controls: []core.Control{
+			{Name: "const-label-slot-shared", File: "internal/engine/wazevo/backend/isa/amd64/machine_vec.go", Old: "m.getOrAllocateConstLabel(&m.constAllOnesI8x16Index, allOnesI8x16[:])", New: "m.getOrAllocateConstLabel(&m.constAllOnesI16x8Index, allOnesI8x16[:])", Rule: "R05.10", Substr: "own slot"},
 			{Name: "rex-for-byte-register-misses-rsi", File: "internal/engine/wazevo/backend/isa/amd64/instr_encoding.go", Old: "\t\t\tsrc := regEncodings[op.reg().RealReg()]\n\t\t\tif ext == extModeBL || ext == extModeBQ {\n\t\t\t\t// Some destinations must be encoded with REX.R = 1.\n\t\t\t\tif e := src.encoding(); e >= 4 && e <= 7 {", New: "\t\t\tsrc := regEncodings[op.reg().RealReg()]\n\t\t\tif ext == extModeBL || ext == extModeBQ {\n\t\t\t\t// Some destinations must be encoded with REX.R = 1.\n\t\t\t\tif e := src.encoding(); e >= 4 && e <= 7 && e != 6 {", Rule: "R05.9", Substr: "REX"},
 			{Name: "vector-shift-constant-count-unmasked", File: "internal/engine/wazevo/backend/isa/amd64/machine_vec.go", Old: "\t\tshiftOp = sseOpcodePsllq\n\tdefault:\n\t\tpanic(fmt.Sprintf(\"invalid lane type: %s\", lane))\n\t}\n\n\t_xx := m.getOperand_Reg(m.c.ValueDefinition(x))\n\txx := m.copyToTmp(_xx.reg())\n", New: "\t\tshiftOp = sseOpcodePsllq\n\tdefault:\n\t\tpanic(fmt.Sprintf(\"invalid lane type: %s\", lane))\n\t}\n\n\t_xx := m.getOperand_Reg(m.c.ValueDefinition(x))\n\txx := m.copyToTmp(_xx.reg())\n\tif amtDef := m.c.ValueDefinition(y); !isI8x16 && amtDef.IsFromInstr() && amtDef.Instr.Constant() {\n\t\tif amt := amtDef.Instr.ConstantVal(); amt <= 0xff {\n\t\t\tamtDef.Instr.MarkLowered()\n\t\t\tm.insert(m.allocateInstr().asXmmRmiReg(shiftOp, newOperandImm32(uint32(amt)), xx))\n\t\t\tm.copyTo(xx, m.c.VRegOf(ret))\n\t\t\treturn\n\t\t}\n\t}\n", Rule: "R05.8", Substr: "immediate count"},
 			{Name: "cond-invert-entry-copied", File: "internal/engine/wazevo/backend/isa/amd64/cond.go", Old: "\tcase condNL:\n\t\treturn condL\n", New: "\tcase condNL:\n\t\treturn condLE\n", Rule: "R05.6", Substr: "involution"},
@@ -54,6 +56,7 @@ func init() {
 
 func runC05(c *core.Ctx) {
 	checkCondMapsAreInvolutions(c)
+	checkConstLabelSlotsPaired(c)
 	checkRexByteRegisterSiblings(c)
 	checkVectorShiftImmediateMasked(c)
 	checkExtendSignednessConsulted(c)
